@@ -475,6 +475,13 @@ class Repo:
                 ci = ClassInfo(node.name, m, node, list(node.bases))
                 for b in node.body:
                     if isinstance(b, (ast.FunctionDef, ast.AsyncFunctionDef)):
+                        # a property's setter / deleter carries the getter's name: it must not replace the getter in the table
+                        acc = [d.attr for d in b.decorator_list if isinstance(d, ast.Attribute) and d.attr in ("setter", "deleter")
+                               and isinstance(d.value, ast.Name) and d.value.id == b.name]
+                        if acc and b.name in ci.methods:
+                            key = f"{b.name}.{acc[0]}"
+                            ci.methods[key] = FunctionInfo(key, f"{node.name}.{key}", m, b, ci)
+                            continue
                         ci.methods[b.name] = FunctionInfo(b.name, f"{node.name}.{b.name}", m, b, ci)
                     elif isinstance(b, ast.Assign) and len(b.targets) == 1 and isinstance(b.targets[0], ast.Name):
                         ci.class_attrs[b.targets[0].id] = b.value
